@@ -87,6 +87,8 @@ func registerModels(e *Engine) {
 	registerDist(e)
 	registerFS(e)
 	registerHTTP(e)
+	registerField(e)
+	registerEdwards(e)
 }
 
 // ---------- verifrt intrinsics ----------
